@@ -396,6 +396,7 @@ def py_wrappers():
     except c20_py.Untranslatable as e:
         raise Untranslatable(str(e))
     out = ["/- GENERATED by translate/gen_C20.py (c20_py.py) from the current /repo working tree — do not edit. -/",
+           "set_option linter.unusedVariables false",
            "namespace Pyunicorn.Generated.StructC20Py", "",
            "/-- one integer argument of a raw-pointer Cython wrapper as the calling Python method passes it:",
            "(Cython parameter, kind, text, pointer position, axis).  kind `arr`: equal to axis `axis` of the",
